@@ -129,6 +129,18 @@ def falsy_value(variant):
     return {"zero": 0, "empty-dict": {}, "empty-list": [], "empty-str": "", "false": False, "zero-float": 0.0}[variant]
 
 
+def empty_value(variant, source):
+    """a value that is FALSY (zero length) and still carries the source of the record"""
+    if variant == "item":
+        return Item(str(source), "", size=0)
+    if variant == "seqs":
+        from cogent3 import make_aligned_seqs
+
+        aln = make_aligned_seqs({"a": "AC", "b": "AG"}, moltype="dna", info={"source": str(source)})
+        return aln[2::3]  # what taking third codon positions of a 2-column alignment leaves: 0 columns
+    raise ValueError(variant)
+
+
 def pause(gate, delay):
     """schedule forcing.  Without a gate: plain sleep.  With a gate (a file the harness parent creates once the
     worker processes have all picked up a task, holding a CLOCK_MONOTONIC instant T0): wait for the gate, then until
@@ -177,6 +189,8 @@ def _act(step, key, val, source, ok):
                 return wrong_value(var, key, source)
             if mode == "falsy":
                 return falsy_value(var)
+            if mode == "empty":
+                return empty_value(var, source)
             if mode != "ok":
                 raise RuntimeError(f"harness: unknown mode {mode}")
         return ok()
